@@ -13,7 +13,7 @@ import tempfile
 from .. import common
 from ..codec import to_coq, coq_str, same
 
-GEN = ["JsonUtilGen.v"]
+GEN = ['JsonUtilGen.v']
 ARGS = [(), (1,), (1.0,), (True,), ("1",), ([1, 2],), ((1, 2),), ([2, 1],), ({"a": 1, "b": 2},), ({"b": 2, "a": 1},),
         ({1: "x"},), ({"1": "x"},), (None,), (0,), (-0.0,), (False,), (2 ** 63,), (float(2 ** 63),), (float("inf"),),
         ("\U0001f600",), ([[]],), ([()],), (1, 2), ((1,), 2), ({"k": [1, {"z": (1, 2)}]},), ({"k": [1, {"z": [1, 2]}]},)]
